@@ -80,7 +80,7 @@ def mq_strategy(tier):
         "lat": st.sampled_from([0, 0, 1, 1, 2, 3, 4]), "rdelay": st.integers(0, len(RDELAY) - 1),
         "maxr": st.integers(0, 3), "cap": st.none() | st.integers(1, 5), "ncons": st.integers(1, 3),
         "init": st.integers(0, 7), "autopoll": st.booleans(),
-        "script": st.lists(act, min_size=1, max_size=40 if big else 22),
+        "script": st.lists(act, min_size=6, max_size=40 if big else 22),
         "react": st.lists(react, min_size=1, max_size=8)})
 
 
@@ -337,7 +337,7 @@ def topic_strategy(tier):
                     st.sampled_from(["pub", "pub", "pub", "pubevent", "pubsync", "sub", "sub", "unsub", "subreplay"]),
                     st.integers(0, 3)).map(list)
     return st.fixed_dictionaries({"lat": st.sampled_from([0, 1, 1, 2, 3, 4]), "nsub": st.integers(1, 4), "init": st.integers(0, 15),
-                                  "retain": st.booleans(), "script": st.lists(act, min_size=1, max_size=30 if big else 16)})
+                                  "retain": st.booleans(), "script": st.lists(act, min_size=4, max_size=30 if big else 16)})
 
 
 def ex_topic(case):
@@ -453,7 +453,7 @@ def log_strategy(tier):
     return st.fixed_dictionaries({"np": st.integers(1, 4), "ret": st.sampled_from([[0, 0], [0, 0], [1, 2], [1, 5], [2, 4], [2, 12], [2, 40]]),
                                   "al": st.integers(0, len(LAT) - 1), "rl": st.integers(0, len(LAT) - 1),
                                   "interval": st.sampled_from([3, 10, 30]),
-                                  "script": st.lists(act, min_size=1, max_size=50 if big else 28)})
+                                  "script": st.lists(act, min_size=8, max_size=50 if big else 28)})
 
 
 def ex_log(case):
@@ -563,12 +563,13 @@ def ex_log(case):
 def group_strategy(tier):
     big = tier == "thorough"
     act = st.tuples(st.sampled_from([0, 1, 1, 2, 3, 5, 8]),
-                    st.sampled_from(["join", "leave", "poll", "poll", "poll", "poll", "app", "app", "app", "app"]),
-                    st.integers(0, 3), st.integers(0, len(KEYS) - 1), st.sampled_from([1, 2, 3, 100])).map(list)
+                    st.sampled_from(["join", "leave", "rejoin", "rejoin", "poll", "poll", "poll", "poll", "poll", "app", "app", "app",
+                                     "app", "app"]),
+                    st.integers(0, 3), st.integers(0, len(KEYS) - 1), st.sampled_from([1, 1, 2, 3, 100, 100])).map(list)
     return st.fixed_dictionaries({"np": st.integers(1, 5), "strategy": st.integers(0, 2), "rdelay": st.sampled_from([0, 1, 2, 4]),
                                   "plat": st.sampled_from([0, 1, 3]), "al": st.sampled_from([0, 1, 3]),
                                   "ncons": st.integers(1, 4), "init": st.sampled_from([1, 1, 3, 3, 7, 15, 2, 5, 6, 0]),
-                                  "script": st.lists(act, min_size=1, max_size=60 if big else 32)})
+                                  "script": st.lists(act, min_size=12, max_size=60 if big else 32)})
 
 
 def ex_group(case):
@@ -586,7 +587,13 @@ def ex_group(case):
     script = [s if isinstance(s, (list, tuple)) and len(s) >= 5 else [0, "app", 0, 0, 1] for s in (case.get("script") or [])][:80]
     script = script or [[0, "app", 0, 0, 1]]
     init = _i(case.get("init"), 0, 15)
-    script = [[0, "join", c, 0, 1] for c in range(ncons) if init >> c & 1 or (c == 0 and init)] + [list(x) for x in script]
+    expanded = []
+    for x in script:            # "rejoin" = the consumer leaves and joins again (keeps its committed offsets)
+        if x[1] == "rejoin":
+            expanded += [[x[0], "leave"] + list(x[2:5]), [1, "join"] + list(x[2:5])]
+        else:
+            expanded.append(list(x))
+    script = [[0, "join", c, 0, 1] for c in range(ncons) if init >> c & 1 or (c == 0 and init)] + expanded
     times = _script_times(script)
     log = EventLog("log", num_partitions=np_, append_latency=al, read_latency=0.0)
     group = cg.ConsumerGroup("group", log, assignment_strategy=strategy, rebalance_delay=rdelay, poll_latency=plat)
